@@ -119,6 +119,8 @@ def run(chk, prog):
     # every bunch if that step hands on the whole grid; decided under C01/R4, re-evaluated here
     from . import C01 as c01
     sub = type(chk)("C01", chk.tier)
+    from .. import main as _main
+    _main.check_anchors("C01", prog)
     c01.run(sub, prog)
     # (and how the damping/diffusion step applies its stencil table to the grid: C01/R5)
     r = [i for i in sub.instances if (i["rule"] == "R4" and "Identity" in i["what"]) or i["rule"] == "R5"]
